@@ -2,7 +2,7 @@ import YncaVerif.Lemmas.C12
 /-! # C12 — the device never sees a silent gap longer than the keep-alive interval
 Over the L4 model with urgency (time passes only while no library thread can move). -/
 namespace Ynca.C12
-open Ynca.L4
+open Ynca.L4 Ynca.L4.C12L
 
 /-- the connection is up and healthy: sender running, reader not in `connection_lost`, no close() begun,
     no write error -/
@@ -21,9 +21,12 @@ theorem C12_gap_30s (P : Params) (hP : P.kaInterval + P.spacing ≤ 30100000) (s
     s.now ≤ lastTx s + 30100000 := by
   have := gap_inv P s h hup; omega
 
-/-- **two probes first**: the first two transmissions of a connection are keep-alive probes -/
-theorem C12_two_probes (P : Params) (s : St) (h : Reachable P s) :
+/-- **two probes first**: as long as the reader has not begun `connection_lost`, the first two
+    transmissions of a connection are keep-alive probes.  (Without the hypothesis the statement is false:
+    the drain loop of `connection_lost` may discard the two queued keep-alives before the sender has taken
+    them, and a command submitted afterwards is then the first thing on the wire.) -/
+theorem C12_two_probes (P : Params) (s : St) (h : Reachable P s) (hl : lossBegun s.rpc = false) :
     ∀ e ∈ s.wire.take 2, e.2.2 = none ∧ e.2.1 = probe :=
-  first_two_probes P s h
+  first_two_probes P s h hl
 
 end Ynca.C12
